@@ -137,3 +137,27 @@ Proof.
       rewrite T. rewrite wraps_small by (change (2 ^ (64 - 1)) with 9223372036854775808; lia).
       replace (rd + 4 + sz >? blen buf) with true by (symmetry; apply Z.gtb_lt; lia). reflexivity.
 Qed.
+
+(* ---------------------------------------------------------------- SkipGo: the fixed-size fast paths *)
+From DG Require Gen_thriftskipfast.
+(* a list / set / map of fixed-size elements is skipped by ONE skipn of count x width - the exact product, as ThriftWire.skip and the
+   machine of Robust.v compute it (an int32 product would wrap for counts above 2^31 / width) *)
+Theorem SkipGo_fast_paths_exact :
+  (forall vt sz, 0 <= vt < 256 -> 0 <= sz < 2 ^ 31 ->
+     Gen_thriftskipfast.SkipGo_list_fast vt sz = (Gen_thriftskipfast.Out_return, [(Gen_thriftskipfast.Eff_skipn, [sz * fixed_size vt])])) /\
+  (forall kt vt sz, 0 <= kt < 256 -> 0 <= vt < 256 -> 0 <= sz < 2 ^ 31 ->
+     Gen_thriftskipfast.SkipGo_map_fast sz (Gen_thriftskipfast.typeSize kt) (Gen_thriftskipfast.typeSize vt)
+       = (Gen_thriftskipfast.Out_return, [(Gen_thriftskipfast.Eff_skipn, [sz * (fixed_size kt + fixed_size vt)])])).
+Proof.
+  assert (TS : forall t, 0 <= t < 256 -> Gen_thriftskipfast.typeSize t = fixed_size t /\ -1 <= fixed_size t <= 8).
+  { intros t Ht. assert (E : (Gen_thriftskipfast.typeSize t =? fixed_size t) && (-1 <=? fixed_size t) && (fixed_size t <=? 8) = true).
+    { revert t Ht. apply GenThriftProofs.byte_sweep. vm_compute. reflexivity. }
+    apply andb_true_iff in E. destruct E as [E E3]. apply andb_true_iff in E. destruct E as [E1 E2].
+    apply Z.eqb_eq in E1. apply Z.leb_le in E2. apply Z.leb_le in E3. lia. }
+  change (2 ^ 31) with 2147483648. split.
+  - intros vt sz Hv Hs. unfold Gen_thriftskipfast.SkipGo_list_fast. destruct (TS vt Hv) as [-> B].
+    rewrite wraps_small by (change (2 ^ (64 - 1)) with 9223372036854775808; nia). reflexivity.
+  - intros kt vt sz Hk Hv Hs. unfold Gen_thriftskipfast.SkipGo_map_fast. destruct (TS kt Hk) as [-> Bk]. destruct (TS vt Hv) as [-> Bv].
+    rewrite (wraps_small 64 (fixed_size kt + fixed_size vt)) by (change (2 ^ (64 - 1)) with 9223372036854775808; lia).
+    rewrite wraps_small by (change (2 ^ (64 - 1)) with 9223372036854775808; nia). reflexivity.
+Qed.
